@@ -655,7 +655,7 @@ pub fn run_c14(opt: &Options) -> i32 {
     let cases = if opt.thorough() {
         opt.scaled(6_000_000)
     } else {
-        opt.scaled(200_000)
+        opt.scaled(1_000_000)
     };
     let fps = Distinct::new(30);
     let nontrivial = Distinct::new(30);
